@@ -25,7 +25,7 @@ def make_config(rng):
     return cfg
 
 
-def build(cfg, params, pt2=None, soap=False):
+def build(cfg, params, pt2=None, soap=False, dist_cfg=None):
     import torch
     from distributed_shampoo.distributed_shampoo import DistributedShampoo
     from distributed_shampoo import shampoo_types as st
@@ -37,7 +37,7 @@ def build(cfg, params, pt2=None, soap=False):
                               dampening=cfg["dampening"], weight_decay=cfg["wd"], max_preconditioner_dim=cfg["maxdim"], precondition_frequency=cfg["freq"],
                               start_preconditioning_step=cfg["start"], inv_root_override=cfg["override"], use_nesterov=cfg["nesterov"],
                               use_bias_correction=cfg["bias"], use_decoupled_weight_decay=cfg["decoupled"], grafting_config=gc, use_merge_dims=cfg["merge"],
-                              preconditioner_dtype=torch.float64, preconditioner_config=pc, shampoo_pt2_compile_config=pt2)
+                              preconditioner_dtype=torch.float64, preconditioner_config=pc, shampoo_pt2_compile_config=pt2, distributed_config=dist_cfg)
 
 
 class RefBlock:
